@@ -79,6 +79,14 @@ def gen_c01(tier, seed, n=None):
     setup_transfers(s, p)
     n = n or (2500 if tier == "quick" else 6000)
     type_lines = []
+    # a qualified type built by ANOTHER Lexicon as operand: the answer is this Lexicon's own node for the merged qualifiers, also when
+    # the request adds nothing to what the operand already carries
+    for b in ("$int", "$char", "$double"):
+        for q in (1, 3, 7):
+            own = s.add("type", "qualified", q, b); p.types.append(own)
+            for q2 in sorted({q, q & 1 or q, 2, 4}):
+                s.add("type", "qualified", q2, "^" + own)
+                s.add("type", "qualified", q | q2, b)
 
     def seq():
         ln = rnd.choice([0, 1, 1, 2, 2, 3, 4, 6])
@@ -93,7 +101,7 @@ def gen_c01(tier, seed, n=None):
         if op == "array":
             return ("type", op, p.pick(p.types), p.pick(p.exprs))
         if op == "qualified":
-            return ("type", op, rnd.randrange(1, 8), p.pick(p.types))
+            return ("type", op, rnd.randrange(1, 8), ("^" if rnd.random() < 0.25 else "") + p.pick(p.types))
         if op == "function":
             if not p.products:
                 return ("product", "productw", seq())
@@ -283,7 +291,8 @@ def gen_c11(tier, seed):
                     if rnd.random() < 0.3:                      # unrelated requests in between
                         s.add("type", "pointer", rnd.choice(base))
                         s.add("type", "qualified", rnd.randrange(1, 8), rnd.choice(["$long", "$double", "@t7"]))
-                    cur = s.add("type", "qualified", q, cur)
+                    # one time in four the (possibly already qualified) operand is the equally built type of ANOTHER Lexicon
+                    cur = s.add("type", "qualified", q, ("^" if rnd.random() < 0.25 else "") + cur)
                 if rnd.random() < 0.25:
                     s.add("type", "qualified", 0, cur)           # the empty set is refused on an already qualified operand too
                 s.add("type", "q_main", cur)
